@@ -1724,7 +1724,7 @@ func poolRunCloseScenario(t *testing.T, cfg poolCloseCfg, rep *vreport, rng *vrn
 			p := mkClient(i)
 			p.s.Write(p.send[:1500])
 		}
-		poolWaitFor(1500*time.Millisecond, func() bool { return poolSessionCount(l)-before == cfg.Clients })
+		poolWaitFor(700*time.Millisecond, func() bool { return poolSessionCount(l)-before == cfg.Clients })
 		createdAfterClose = poolSessionCount(l) - before
 	default:
 		accepted := make(chan *UDPSession, cfg.Clients)
